@@ -454,6 +454,8 @@ fn variant(base: &[ModeSpec], v: usize) -> Option<Vec<ModeSpec>> {
         10 => m[0].pats.push(PatSpec { p: ["a", "b", "c", "é"][base[0].pats.len() % 4].into(), tt: 95, la: None }), // the base list is a proper prefix of this one
         11 => { m.truncate(1); m[0].trans.clear(); } // a single mode without transitions
         12 => { m.truncate(1); m[0].trans.clear(); m[0].name = "INITIAL".into(); }
+        13 => m[0].pats[0].p = "\\p{Greek}".into(), // registers a class and then fails to build (unknown Unicode class): must not affect later builds
+        14 => { m[0].pats[0].p = "\\p{Greek}".into(); let l = m[0].pats.len() - 1; m[0].pats[l].p = "(".into(); }
         _ => return None,
     }
     Some(m)
@@ -814,7 +816,7 @@ fn gen_pats(r: &mut Rng, with_la: bool, n: usize, numbering: usize) -> Vec<PatSp
     let mut out = vec![];
     for _ in 0..n {
         // three quarters from the pool, one quarter structured random regexes (every operator, nested)
-        let p = if r.below(4) == 0 { let d = 1 + r.below(2); gen_regex(r, d) } else { r.pick(PATS).to_string() };
+        let p = if r.below(4) == 0 { let d = 1 + r.below(2); gen_regex(r, d) } else if r.below(24) == 0 { String::new() /* the empty pattern: valid, never yields a token, keeps its position */ } else { r.pick(PATS).to_string() };
         let la = if with_la && r.below(2) == 0 { Some((r.below(3) != 0, r.pick(LAS).to_string())) } else { None };
         out.push(PatSpec { p, tt: tts.remove(0), la });
     }
@@ -1001,7 +1003,7 @@ fn gen_case(family: &str, r: &mut Rng) -> Case {
             pats2.push(PatSpec { p: uniq, tt: 91, la: None });
             let input = gen_input(r, 7);
             let nops = 2 + r.below(5);
-            let mut ops: Vec<Op> = (0..nops).map(|_| Op::SetMode(r.below(13))).collect();
+            let mut ops: Vec<Op> = (0..nops).map(|_| Op::SetMode(r.below(15))).collect();
             if r.below(2) == 0 { ops.insert(0, Op::SetMode(0)); ops.insert(0, Op::SetMode(9)); }
             let t0 = pats[0].tt;
             Case { family: family.into(), modes: vec![ModeSpec { name: "M0".into(), pats, trans: if r.below(2) == 0 { vec![(t0, 1)] } else { vec![] } },
